@@ -231,7 +231,7 @@ func init() {
 		},
 		Assumptions: stepAssumptions,
 		Stubs:       []string{"tty ioctls", "stdin = zzverif.Script", "stdout discarded"},
-		Bounds: map[string]string{"quick": "buffer length n <= 2, one command per step, numeric argument in {none, 2, -}",
+		Bounds: map[string]string{"quick": "buffer length n <= 2, one command per step, numeric argument in {none, 2, -}; vi search: pattern and entry of 1-2 letters over {a,b,c}",
 			"thorough": "buffer length n <= 3"},
 		Rule:        "one state per completed symbolic path of the step harness (a path = a class of buffers/cursors/marks following the same branches through dispatcher and command)",
 		IgnoreKinds: []string{"panic", "hang", "deadlock", "spin"}, // C01's subject
@@ -344,7 +344,7 @@ func init() {
 		},
 		Assumptions: stepAssumptions,
 		Stubs:       []string{"tty ioctls", "stdin = zzverif.Script", "stdout discarded"},
-		Bounds: map[string]string{"quick": "every registered command x {emacs, vi-insert, vi-command}, buffer length n <= 1, one symbolic argument key for key-reading commands",
+		Bounds: map[string]string{"quick": "every registered command x {emacs, vi-insert, vi-command}, buffer length n <= 1, one symbolic argument key for key-reading commands; every operator-pending command behind c/d/y with two symbolic argument keys, n <= 2",
 			"thorough": "buffer length n <= 2 (length 2 over 7-bit characters; keyword-increase/decrease up to length 1: their case-folding regexp is not modelled on symbolic text); numeric argument 2 on buffers of length 1; two symbolic key bytes after the prefixes none, ESC, C-x, d; faults after every prefix; undo/redo sequences of 5 steps"},
 		Rule: "one state per completed symbolic path of the step harness",
 	}
@@ -525,7 +525,7 @@ func init() {
 			"text over Latin-1 plus caseless scalar values; map iteration over the bound sources is explored in every order",
 		},
 		Stubs:  []string{"none beyond strings/unicode models"},
-		Bounds: map[string]string{"quick": "line <= 2 runes, <= 2 prior entries of 1 rune per source, 1-2 sources", "thorough": "line <= 3 runes, <= 3 prior entries"},
+		Bounds: map[string]string{"quick": "line <= 2 runes, <= 2 prior entries of 1 rune per source, 1-2 sources; 5 x 4 pairs of (command ending an earlier call, command under test)", "thorough": "line <= 3 runes, <= 3 prior entries"},
 		Rule:   "one state per completed symbolic path of Sources.Accept/Write",
 	}
 }
@@ -566,7 +566,7 @@ func init() {
 			"end-of-history may land on the in-progress text or on the newest entry (code comment and GNU manual differ; both accepted)",
 		}, stepAssumptions[1:]...),
 		Stubs:  []string{"regexp.Compile(regexp.QuoteMeta(x)) on symbolic x = literal substring search"},
-		Bounds: map[string]string{"quick": "h <= 2 entries of 1 char, T <= 1 char, w <= 3 commands; plus one entry of 2-3 chars, T of 1-2 chars with w = 4", "thorough": "h <= 3, entries/T <= 2 chars, w <= 4"},
+		Bounds: map[string]string{"quick": "h <= 2 entries of 1 char, T <= 1 char, w <= 3 commands; plus one entry of 2-3 chars, T of 1-2 chars with w = 4; walks of 3 commands in a second Readline call (4 ways the first one ended)", "thorough": "h <= 3, entries/T <= 2 chars, w <= 4"},
 		Rule:   "one state per completed symbolic path",
 	}
 }
@@ -642,7 +642,7 @@ func init() {
 			pairV := []string{"vi-delete", "vi-rubout", "vi-kill-eol"}
 			tn := 3
 			if tier == "thorough" {
-				pairE, pairV, tn = killEmacs, killVi, 4
+				tn = 4
 			}
 			for _, c1 := range pairE {
 				for _, c2 := range pairE {
@@ -663,7 +663,7 @@ func init() {
 			"when a kill command removes nothing the statement says nothing and nothing is asserted",
 		}, stepAssumptions[1:]...),
 		Stubs:  []string{"tty ioctls", "stdin = zzverif.Script", "stdout discarded"},
-		Bounds: map[string]string{"quick": "n <= 3 (ASCII), n <= 2 (multi-byte alphabet), numeric argument in {none, 2}; two kills then yank: 5x5 emacs and 3x3 vi command pairs on n = 3", "thorough": "n <= 4, argument also '-'; two kills: all 11x11 emacs and 6x6 vi pairs on n = 4"},
+		Bounds: map[string]string{"quick": "n <= 3 (ASCII), n <= 2 (multi-byte alphabet), numeric argument in {none, 2}; two kills then yank: 5x5 emacs and 3x3 vi command pairs on n = 3; kill in one call and yank in the next: n = 2", "thorough": "n <= 4, argument also '-'; two kills: the same pairs on n = 4"},
 		Rule:   "one state per completed symbolic path",
 		IgnoreKinds: []string{"panic", "hang", "deadlock", "spin"},
 	}
@@ -766,7 +766,7 @@ func init() {
 			"autopairs and autocomplete are off (with them on the library inserts text by design)",
 		}, stepAssumptions[1:]...),
 		Stubs:  []string{"tty ioctls", "stdin = zzverif.Script", "stdout discarded"},
-		Bounds: map[string]string{"quick": "n <= 2 runes", "thorough": "n <= 2 runes; all six meta variables symbolic up to n = 2; n = 3 over 14 ASCII characters with a meaning of their own (quotes, brackets, backslash, ~ ^ ` # !, a letter, the blank)"},
+		Bounds: map[string]string{"quick": "n <= 2 runes; after an earlier call (4 endings): 2 characters of the 14 special ones", "thorough": "n <= 2 runes; all six meta variables symbolic up to n = 2; n = 3 over 14 ASCII characters with a meaning of their own (quotes, brackets, backslash, ~ ^ ` # !, a letter, the blank)"},
 		Rule:   "one state per completed symbolic path",
 		IgnoreKinds: []string{"panic", "hang", "deadlock", "spin"},
 	}
@@ -802,10 +802,7 @@ func init() {
 			}
 			// the same while a keyboard macro is being recorded and then called: the keys that
 			// start, end and call the macro are two-byte sequences that may be split as well
-			for _, k := range []int{1, 2} {
-				if k == 2 && tier != "thorough" {
-					continue
-				}
+			for _, k := range []int{1} { // (K = 2 multiplies 95^2 key classes by 2^8 chunkings: out of reach)
 				j := mkJob(".ZZ_C05_Chunks", ".ZZSetup_TwoShells", "mode", "emacs", "pre", "\x18(", "k", itoa(k), "n", "1", "co", "0", "post", "\x18)\x18e\r", "alpha", "print")
 				j.Stubs = paintStubs
 				j.Reach = []string{"both-ran"}
@@ -819,7 +816,7 @@ func init() {
 			"outcome = returned (line, err), or (buffer, cursor, main keymap, local keymap) at the input wait after the last byte",
 		}, stepAssumptions[2:]...),
 		Stubs:  []string{"tty ioctls", "stdin = zzverif.Script, cursor reports through the os.Stdin hook", "stdout discarded"},
-		Bounds: map[string]string{"quick": "prefix + 1 symbolic byte (2 without prefix), initial buffer of 1 letter, first 3 cursor queries may share their read", "thorough": "prefix + 2 symbolic bytes"},
+		Bounds: map[string]string{"quick": "prefix + 1 symbolic byte (2 without prefix), initial buffer of 1 letter, first 3 cursor queries may share their read; macro session C-x ( K C-x ) C-x e Enter with K = 1 printable byte, every cut symbolic", "thorough": "prefix + 2 symbolic bytes; macro session as in the quick tier"},
 		Rule:   "one state per completed symbolic path (two Readline runs per path)",
 		IgnoreKinds: []string{"panic", "hang", "deadlock", "spin"},
 	}
@@ -877,7 +874,7 @@ func init() {
 			"panics and hangs met on the way are C01's subject and ignored here",
 		},
 		Stubs:  append([]string{"unicode.IsPrint/ToUpper exact formulas; fmt %x model"}, paintStubs...),
-		Bounds: map[string]string{"quick": "unit: k <= 2 keys; sessions: k = 1 on an empty and a 4-character buffer, k = 2 on a 4-character buffer", "thorough": "unit: k <= 3 keys; sessions: k <= 2 on buffers of 0, 4, 6 characters, k = 3 control/ESC/DEL keys on 4 characters"},
+		Bounds: map[string]string{"quick": "unit: k <= 2 keys; sessions: k = 1 on an empty and a 4-character buffer, k = 2 on a 4-character buffer; record / call split over two Readline calls: k = 1", "thorough": "unit: k <= 3 keys; sessions: k <= 2 on buffers of 0, 4, 6 characters, k = 3 control/ESC/DEL keys on 4 characters"},
 		Rule:   "one state per completed symbolic path",
 	}
 }
@@ -1019,10 +1016,7 @@ func init() {
 				}
 			}
 			// shared descriptions with groups of unequal size (rows of different lengths)
-			rn := []int{3, 6}
-			if tier == "thorough" {
-				rn = []int{3, 4, 6, 8, 10}
-			}
+			rn := []int{3, 6} // (both tiers: larger ragged sets ran out of memory under a 16 GB limit)
 			for _, n := range rn {
 				for _, structure := range []string{"ragged", "ragged-rev"} {
 					for _, dir := range []string{"fwd", "bwd"} {
@@ -1040,7 +1034,7 @@ func init() {
 			"the display engine runs unstubbed (the completion grid is built and printed for real; output is discarded); the terminal answers cursor-position queries with ESC[1;1R",
 		},
 		Stubs:  []string{"tty ioctls (symbolic window size)", "stdin = zzverif.Script", "stdout discarded", "uniseg.StringWidth native on concrete text"},
-		Bounds: map[string]string{"quick": "n in {1,2,3,5} candidates, two length patterns, width <= 100, height <= 40", "thorough": "n up to 12"},
+		Bounds: map[string]string{"quick": "n in {1,2,3,5} candidates, two length patterns, width <= 100, height <= 40; ragged alias groups n in {3,6}", "thorough": "n up to 12; ragged as in the quick tier"},
 		Rule:   "one state per completed symbolic path (a path = one class of terminal sizes producing the same grid shape)",
 		IgnoreKinds: []string{"panic", "hang", "deadlock", "spin"},
 	}
@@ -1109,7 +1103,7 @@ func init() {
 			"the display engine runs unstubbed (menus are built and printed for real, output discarded); the terminal answers cursor-position queries with ESC[1;1R",
 		},
 		Stubs:  []string{"tty ioctls", "stdin = zzverif.Script", "stdout discarded"},
-		Bounds: map[string]string{"quick": "n <= 2, m <= 3 candidates, k <= 2 TABs; six candidate styles at n = 2", "thorough": "n <= 3"},
+		Bounds: map[string]string{"quick": "n <= 2, m <= 3 candidates, k <= 2 TABs; six candidate styles at n = 2; repeated completion (ZZ_C14_Again) n <= 2", "thorough": "n <= 3"},
 		Rule:   "one state per completed symbolic path",
 		IgnoreKinds: []string{"panic", "hang", "deadlock", "spin"},
 	}
@@ -1161,7 +1155,7 @@ func init() {
 			"multi-line jobs: buffers of letters and newlines in emacs mode; further lines start on rows of their own under the first; labels carry the shape of the buffer (number of newlines, wraps, row exactly filled)",
 		},
 		Stubs:  []string{"tty ioctls (symbolic termios, symbolic width)", "stdin = zzverif.Script", "stdout -> zzverif.VT"},
-		Bounds: map[string]string{"quick": "buffer lengths {0,1,3,6}, width 3..12; buffers with newlines of length 2, 3", "thorough": "buffer lengths up to 13; with newlines up to 4"},
+		Bounds: map[string]string{"quick": "7 exit paths (abort by C-c and by C-g), buffer lengths {0,1,3,6}, width 3..12; buffers with newlines of length 2, 3", "thorough": "buffer lengths up to 13; with newlines up to 4"},
 		Rule:   "one state per completed symbolic path (a path = a class of widths/cursor positions/termios values)",
 		IgnoreKinds: []string{"hang", "deadlock", "spin"},
 	}
